@@ -445,19 +445,23 @@ def run(ctx):
 
     # --- alarm handler must not clean up
     r = rules['C01.5-cleanup-order']
-    handlers = []
-    for c in main.calls('sig_alarmcatch'):
-        v = c.args[0].strip()
-        if v.k == 'ref':
-            handlers.append(v.n['d'][2:])
-    if not handlers:
-        raise AnalysisBroken('sig_alarmcatch(handler) not found in main')
-    for h in handlers:
+    from qv.lib import deep_calls
+    handlers = {}
+    for f_ in [main] + [g_ for g_ in prog.functions() if g_.unit == 'qmail-queue.c' and g_.blocks]:
+        for c in f_.calls():
+            if c.callee and c.callee.startswith('sig_'):
+                for a_ in c.args:
+                    v = a_.strip() if a_ is not None else None
+                    if v is not None and v.k == 'ref' and v.n['d'].startswith('F:'):
+                        handlers.setdefault(v.n['d'][2:], c.callee)
+    if not any(k == 'sig_alarmcatch' for k in handlers.values()):
+        raise AnalysisBroken('qmail-queue.c: no handler is installed with sig_alarmcatch()')
+    for h, how in sorted(handlers.items()):
         hf = prog.fn(h, 'qmail-queue.c')
         reach = transitive_callees(prog, hf)
         bad = reach & {'unlink', 'ftruncate', 'cleanup', 'truncate', 'rename'}
-        r.check(not bad, 'alarm-handler-%s-does-not-clean-up' % h, '%s:%d' % (hf.unit, hf.line),
-                'handler reaches %s: a timer firing after the commit would destroy an accepted message' % sorted(bad))
+        r.check(not bad, '%s-handler-%s-does-not-clean-up' % ('alarm' if how == 'sig_alarmcatch' else 'signal', h), '%s:%d' % (hf.unit, hf.line),
+                'handler (installed by %s) reaches %s: a signal arriving after the commit would destroy an accepted message (intd/<n> and todo/<n> are one file)' % (how, sorted(bad)))
 
     # --- R-CONST DEATH < OSSIFIED
     r = rules['C01.6-timer']
@@ -466,7 +470,7 @@ def run(ctx):
     oss_c = macro_const(db, 'qmail-clean.c', 'OSSIFIED')
     r.check(0 < death < oss_s and death < oss_c, 'DEATH<OSSIFIED', 'qmail-queue.c',
             'DEATH=%d, OSSIFIED=%d (qmail-send), %d (qmail-clean)' % (death, oss_s, oss_c))
-    al = main.calls('alarm')
+    al = [c for _, c in deep_calls(prog, main, 'alarm', depth=2)]
     if not al:
         raise AnalysisBroken('alarm() call not found in main')
     for c in al:
